@@ -201,7 +201,26 @@ pub fn run(ctx: &Ctx) -> CheckOutput {
             }));
         }
     }
-    // thorough: slow numeric blow-ups must reach the internal finiteness assertions
+    // slow numeric blow-ups must reach the internal finiteness assertions (an unstable recursion needs a
+    // few hundred updates to overflow): quick N = 1..4 over 1500 updates, thorough N = 1..16 over 20000
+    if quick {
+        for n in 1..=4usize {
+            for e in unary_catalogue() {
+                if !e.has_n && n != 1 {
+                    continue;
+                }
+                for spec in variants(e.kind, n, &Spec::echo()) {
+                    jobs.push(Box::new(move || {
+                        let mut st = Stats::default();
+                        let sink = Sink::new();
+                        let seqs = crate::explore::cycles(&alphabet(&spec)[..3], 2);
+                        check_long::<f64>(&spec, &seqs, 1500, &mut st, &sink);
+                        JobOut { stats: st, viols: sink.take(), samples: vec![] }
+                    }));
+                }
+            }
+        }
+    }
     if !quick {
         for n in 1..=16usize {
             for e in unary_catalogue() {
